@@ -148,6 +148,40 @@ Proof.
   reflexivity.
 Qed.
 
+(* E3', property C13 (schema half): user comments in the gaps change no verdict.  [is_gap]: blanks and
+   line comments; the last gap may end inside a comment ([is_gap_end]) *)
+Theorem e2e_json_with_comments : forall optd w1 v w2 w d,
+  is_gap w1 = true -> wfg is_gap v = true -> is_gap_end w2 = true -> no_exponent v = true -> distinct_keys v = true ->
+  w_of_jv v = Some w ->
+  e2e_validate optd (w1 ++ render v ++ w2) d = EVerdict (validate (compile optd w) d).
+Proof.
+  intros optd w1 v w2 w d H1 Hv H2 Hn Hd Hw. unfold e2e_validate, schema_of_text.
+  rewrite (load_mirrors_json_with_comments w1 v w2 H1 Hv H2 Hn Hd), w_of_node_mirror, Hw. reflexivity.
+Qed.
+Theorem e2e_comments_invariant : forall optd w1 v w2 w1' v' w2' d,
+  is_gap w1 = true -> wfg is_gap v = true -> is_gap_end w2 = true -> no_exponent v = true -> distinct_keys v = true ->
+  is_gap w1' = true -> wfg is_gap v' = true -> is_gap_end w2' = true -> no_exponent v' = true -> distinct_keys v' = true ->
+  mirror v = mirror v' ->
+  e2e_validate optd (w1 ++ render v ++ w2) d = e2e_validate optd (w1' ++ render v' ++ w2') d.
+Proof.
+  intros optd w1 v w2 w1' v' w2' d H1 Hv H2 Hn Hd H1' Hv' H2' Hn' Hd' Hm.
+  unfold e2e_validate, schema_of_text.
+  rewrite (load_mirrors_json_with_comments w1 v w2 H1 Hv H2 Hn Hd),
+          (load_mirrors_json_with_comments w1' v' w2' H1' Hv' H2' Hn' Hd'), Hm.
+  reflexivity.
+Qed.
+(* in particular: a commented layout and a comment-free layout of the same value *)
+Corollary e2e_comments_do_not_change_verdicts : forall optd w1 v w2 w1' v' w2' d,
+  is_gap w1 = true -> wfg is_gap v = true -> is_gap_end w2 = true -> no_exponent v = true -> distinct_keys v = true ->
+  all_blank w1' = true -> Grammar.wf v' = true -> all_blank w2' = true -> no_exponent v' = true -> distinct_keys v' = true ->
+  mirror v = mirror v' ->
+  e2e_validate optd (w1 ++ render v ++ w2) d = e2e_validate optd (w1' ++ render v' ++ w2') d.
+Proof.
+  intros optd w1 v w2 w1' v' w2' d H1 Hv H2 Hn Hd H1' Hv' H2' Hn' Hd' Hm.
+  apply e2e_comments_invariant; try assumption;
+    [exact (all_blank_gap false w1' H1')|apply wf_wfg_gap; exact Hv'|exact (all_blank_gap true w2' H2')].
+Qed.
+
 (* E4 *)
 Theorem e2e_duplicate_key : forall optd w1 v w2 p d,
   all_blank w1 = true -> Grammar.wf v = true -> all_blank w2 = true -> no_exponent v = true ->
